@@ -492,3 +492,1238 @@ func (ck *Check) literalFields(ctx *Ctx, v ssa.Value) map[string]*Term {
 	}
 	return out
 }
+
+// ---------------------------------------------------------------------------------------------
+// C17 / C18 / C19
+
+func init() {
+	register(&propSpec{ID: "C17", Run: checkC17,
+		Explanation: "In (*aws.NodeGroup).IncreaseSize every call that can reach an AWS write is behind δ ≥ 1 ∧ TargetSize + δ ≤ MaxSize (so a rejected request performs no write and desired capacity is never lowered); the set-capacity strategy sends exactly one SetDesiredCapacity with DesiredCapacity = TargetSize + δ for the group's own name; the fleet request has TotalTargetCapacity = MinTargetCapacity = δ on the option block selected by the lifecycle, Type instant; the slice handed to the attach step contains every acquired instance id; the attach calls are a head/tail chunking of that slice with chunk size ≤ 20 (each id in exactly one call).",
+		RuleText:    "R1 bounds first, R2 absolute set, R3 fleet request fields, R4 acquired set, R5 attach chunking",
+		Assumptions: []string{"that AWS honours MinTargetCapacity (all-or-nothing) and readiness polling are not decided"}})
+	register(&propSpec{ID: "C18", Run: checkC18,
+		Explanation: "In the attach step every return of a non-nil error is immediately preceded by a call of the injected terminate function whose argument is, by the chunking invariant, exactly the complement of the chunks already attached (whole input on timeout; rest ∪ failed batch inside the loop; the remainder on the final call); the success return calls no terminate; between a successful CreateFleet and the attach step nothing is dropped; the production caller injects terminateOrphanedInstances, which issues TerminateInstances per batch of ≤ 1000 ids built from the current batch only; the error is returned unchanged up to ScaleUp, which arms the lock only on err == nil.",
+		RuleText:    "R1 terminate-before-error-exit with complement argument, R2 success exit, R3 nothing dropped, R4 terminate chunking, R5 error chain",
+		Assumptions: []string{"failure of the terminate call itself is only logged (statement: \"submitted for termination\")"}})
+	register(&propSpec{ID: "C19", Run: checkC19,
+		Explanation: "In (*aws.NodeGroup).DeleteNodes the terminate call is behind TargetSize > MinSize ∧ TargetSize − len(nodes) ≥ MinSize and the membership test of that very node, is issued at most once per listed node, with ShouldDecrementDesiredCapacity = true and the InstanceId of the ASG instance whose provider id equals the node's; Belongs and the lookup use the same provider-id mapping; a non-member returns *NodeNotInNodeGroup; the delete step deletes from Kubernetes only after the cloud call returned nil; and that error type is propagated unchanged by every frame up to RunForever, whose result main passes to log.Fatal.",
+		RuleText:    "R1 minimum pre-checks, R2 membership, R3 right instance with decrement, R4 same key on both sides, R5 cloud first, R6 type-preserving propagation per frame",
+		Assumptions: []string{"freshness of the cached TargetSize is C07.R5"}})
+}
+
+func checkC17(ck *Check) {
+	ck.providerBounds("C17.R1")
+	ck.absoluteSet("C17.R2")
+	ck.fleetRequest("C17.R3")
+	ck.acquiredSet("C17.R4")
+	ck.attachChunking("C17.R5")
+}
+
+func isAwsHelper(t *Term, name string) bool {
+	return t != nil && t.Kind == "call" && strings.HasSuffix(t.Name, "aws."+name) && len(t.Args) == 1
+}
+
+// fleetRequest (C17.R3)
+func (ck *Check) fleetRequest(rule string) {
+	a := ck.A
+	if !ck.need(rule, map[string]interface{}{"createFleetInput": a.AwsCreateFleetInput, "fleet strategy": a.AwsOneShot, "aws IncreaseSize": a.AwsIncrease}) {
+		return
+	}
+	fn := a.AwsCreateFleetInput
+	ctx := ck.P.NewCtx(fn)
+	var addCount *Term
+	for _, prm := range fn.Params {
+		if isInteger(prm.Type()) {
+			addCount = paramTerm(prm)
+		}
+	}
+	// the CreateFleetInput literal
+	var lit *ssa.Alloc
+	for _, b := range fn.Blocks {
+		for _, in := range b.Instrs {
+			if al, ok := in.(*ssa.Alloc); ok && strings.HasSuffix(typeName(al.Type()), "ec2.CreateFleetInput") {
+				lit = al
+			}
+		}
+	}
+	if lit == nil || addCount == nil {
+		ck.fail(rule, "createFleetInput/literal", "", funcID(fn), "a CreateFleetInput literal built from the count parameter", "not found", "")
+		return
+	}
+	pos := ck.P.position(fn.Pos())
+	flds := ck.literalFields(ctx, lit)
+	ck.cond(isAwsHelper(flds["Type"], "String") && flds["Type"].Args[0].Name == `"instant"`, rule, "fleet/Type", pos, funcID(fn), `Type ← "instant"`, fmt.Sprint(flds["Type"]), "the fleet request is not synchronous all-at-once")
+	// nested target capacity spec
+	var spec map[string]*Term
+	var lifecycleVal ssa.Value
+	for _, r := range *lit.Referrers() {
+		if fa, ok := r.(*ssa.FieldAddr); ok && fieldOfAddr(fa).Name() == "TargetCapacitySpecification" {
+			for _, rr := range *fa.Referrers() {
+				if st, ok := rr.(*ssa.Store); ok {
+					spec = ck.literalFields(ctx, st.Val)
+				}
+			}
+		}
+	}
+	okTotal := spec != nil && isAwsHelper(spec["TotalTargetCapacity"], "Int64") && spec["TotalTargetCapacity"].Args[0].Key() == addCount.Key()
+	ck.cond(okTotal, rule, "fleet/TotalTargetCapacity", pos, funcID(fn), "TotalTargetCapacity ← Int64(addCount)", fmt.Sprint(spec["TotalTargetCapacity"]), "the fleet asks for a number other than δ")
+	var lifecycle *Term
+	if spec != nil && isAwsHelper(spec["DefaultTargetCapacityType"], "String") {
+		lifecycle = spec["DefaultTargetCapacityType"].Args[0]
+		lifecycleVal = lifecycle.Val
+	}
+	ck.cond(lifecycle != nil, rule, "fleet/DefaultTargetCapacityType", pos, funcID(fn), "DefaultTargetCapacityType ← String(lifecycle)", fmt.Sprint(spec["DefaultTargetCapacityType"]), "")
+	_ = lifecycleVal
+	// option blocks
+	type optStore struct {
+		st   *ssa.Store
+		flds map[string]*Term
+	}
+	stores := map[string]*optStore{}
+	for _, r := range *lit.Referrers() {
+		if fa, ok := r.(*ssa.FieldAddr); ok {
+			name := fieldOfAddr(fa).Name()
+			if name == "OnDemandOptions" || name == "SpotOptions" {
+				for _, rr := range *fa.Referrers() {
+					if st, ok := rr.(*ssa.Store); ok {
+						stores[name] = &optStore{st, ck.literalFields(ctx, st.Val)}
+					}
+				}
+			}
+		}
+	}
+	od, sp := stores["OnDemandOptions"], stores["SpotOptions"]
+	if od == nil || sp == nil || lifecycle == nil {
+		ck.fail(rule, "fleet/options", pos, funcID(fn), "OnDemandOptions and SpotOptions blocks are set according to the lifecycle", "missing", "")
+	} else {
+		for name, o := range map[string]*optStore{"OnDemandOptions": od, "SpotOptions": sp} {
+			m := o.flds["MinTargetCapacity"]
+			ck.cond(isAwsHelper(m, "Int64") && m.Args[0].Key() == addCount.Key(), rule, "fleet/"+name+"/MinTargetCapacity", ck.P.instrPos(o.st), funcID(fn), "MinTargetCapacity ← Int64(addCount) (all-or-nothing)", fmt.Sprint(m), "a partial fleet is accepted")
+		}
+		isOD := cmpFormula(token.EQL, lifecycle, &Term{Kind: "const", Name: `"on-demand"`})
+		ck.entails(rule, "fleet/OnDemandOptions/guard", od.st, ctx.PC(od.st), isOD, "OnDemandOptions is set only when lifecycle == on-demand")
+		ck.entails(rule, "fleet/SpotOptions/guard", sp.st, ctx.PC(sp.st), Not(isOD), "SpotOptions is set only when lifecycle != on-demand")
+		// exactly one of them on every path to the successful return
+		for _, b := range fn.Blocks {
+			if r, ok := b.Instrs[len(b.Instrs)-1].(*ssa.Return); ok {
+				if k, isC := r.Results[0].(*ssa.Const); isC && k.Value == nil {
+					continue // error return
+				}
+				okv, why, err := Entails(ctx.BlockPC(b), Or(ctx.PC(od.st), ctx.PC(sp.st)))
+				if err == nil {
+					ck.cond(okv, rule, "fleet/options/total", ck.P.instrPos(r), funcID(fn), "every successful path sets one of the two option blocks", "", why)
+				}
+			}
+		}
+	}
+	// binding of addCount to δ and the single CreateFleet call
+	os := a.AwsOneShot
+	octx := ck.P.NewCtx(os)
+	var osCount *Term
+	for _, prm := range os.Params {
+		if isInteger(prm.Type()) {
+			osCount = paramTerm(prm)
+		}
+	}
+	for _, ci := range callsTo(os, fn) {
+		var got *Term
+		for _, av := range ci.Common().Args {
+			if isInteger(av.Type()) {
+				got = octx.Term(av)
+			}
+		}
+		ck.cond(got != nil && osCount != nil && got.Key() == osCount.Key(), rule, ck.P.siteKey(ci)+"/count", ck.P.instrPos(ci), funcID(os), "createFleetInput is given the strategy's own count", fmt.Sprint(got), "")
+	}
+	ictx := ck.P.NewCtx(a.AwsIncrease)
+	for _, ci := range callsTo(a.AwsIncrease, os) {
+		got := ictx.Term(ci.Common().Args[1])
+		ck.cond(got.Key() == paramTerm(a.AwsIncrease.Params[1]).Key(), rule, ck.P.siteKey(ci)+"/count", ck.P.instrPos(ci), funcID(a.AwsIncrease), "the fleet strategy is given δ", got.String(), "")
+	}
+	n := 0
+	for _, w := range a.W {
+		if w.Class == "W-EC2-FLEET" {
+			n++
+			okv := w.Fn == os && innermostLoop(os, w.Call.Block()) == nil
+			arg := octx.Term(w.Call.Common().Args[0])
+			okArg := isExtractOf(arg, 0, func(t *Term) bool { return isCallTo(t, fn) })
+			ck.cond(okv && okArg, rule, ck.P.siteKey(w.Call), ck.P.instrPos(w.Call), funcID(w.Fn), "exactly one CreateFleet per request, with the input built by createFleetInput", arg.String(), "")
+		}
+	}
+	ck.floor(rule, "CreateFleet sites", n, 1)
+}
+
+// acquiredSet (C17.R4): the slice handed to the attach step holds every InstanceIds element of
+// every fleet.Instances entry.
+func (ck *Check) acquiredSet(rule string) {
+	a := ck.A
+	os := a.AwsOneShot
+	if !ck.need(rule, map[string]interface{}{"fleet strategy": os, "attach step": a.AwsAttach}) {
+		return
+	}
+	ctx := ck.P.NewCtx(os)
+	for _, ci := range callsTo(os, a.AwsAttach) {
+		key := ck.P.siteKey(ci)
+		var arg ssa.Value
+		for _, av := range ci.Common().Args[1:] {
+			if _, ok := av.Type().(*types.Slice); ok {
+				arg = av
+			}
+		}
+		pr := sliceProv(arg)
+		okv := len(pr.Appends) == 1
+		var why string
+		for _, r := range pr.Roots {
+			if !makeSliceEmpty(r) {
+				okv = false
+				why = "the id list has another origin: " + r.String()
+			}
+		}
+		if okv {
+			ap := pr.Appends[0]
+			l := innermostLoop(os, ap.Call.Block())
+			switch {
+			case ap.Spread == nil:
+				okv, why = false, "ids are not appended as a whole InstanceIds slice"
+			case l == nil || !l.FullTraversal():
+				okv, why = false, "the loop over fleet.Instances can exit early"
+			default:
+				sp := ctx.Term(ap.Spread)
+				okSp := sp.Kind == "field" && sp.Name == "InstanceIds" && sp.Args[0].Kind == "elem"
+				if okSp {
+					over := sp.Args[0].Args[0]
+					okSp = over.Kind == "field" && over.Name == "Instances"
+				}
+				body := And(ctx.BlockPC(l.Header), ctx.edgeCond(l.Header, l.Header.Succs[0]))
+				eq, _, _ := Equivalent(ctx.PC(ap.Call), body)
+				if !okSp || !eq {
+					okv, why = false, "not every InstanceIds of every fleet.Instances entry is appended unconditionally: "+sp.String()
+				}
+			}
+		}
+		ck.cond(okv, rule, key+"/ids", ck.P.instrPos(ci), funcID(os), "the attach step receives every instance id of the fleet response (full nested range, no filter)", provString(ck.P, pr), why)
+	}
+}
+
+// chunkLoop: head/tail chunking `for k < len(s) { s, b = s[k:], s[0:k:k]; use(b) }; use(s)`.
+type chunkLoop struct {
+	loop  *Loop
+	S     *ssa.Phi // remaining slice
+	K     int64
+	Rest  *ssa.Slice // s[k:]
+	Batch *ssa.Slice // s[0:k]
+	Init  ssa.Value
+}
+
+func findChunkLoop(fn *ssa.Function) *chunkLoop {
+	for _, l := range loopsOf(fn) {
+		h := l.Header
+		br, ok := h.Instrs[len(h.Instrs)-1].(*ssa.If)
+		if !ok {
+			continue
+		}
+		cmp, ok := br.Cond.(*ssa.BinOp)
+		if !ok || cmp.Op != token.LSS {
+			continue
+		}
+		k, ok := cmp.X.(*ssa.Const)
+		if !ok {
+			continue
+		}
+		lc, ok := isBuiltinCall(cmp.Y, "len")
+		if !ok {
+			continue
+		}
+		ph, ok := lc.Common().Args[0].(*ssa.Phi)
+		if !ok || ph.Block() != h || !l.Blocks[h.Succs[0]] {
+			continue
+		}
+		cl := &chunkLoop{loop: l, S: ph, K: k.Int64()}
+		okShape := true
+		for i, e := range ph.Edges {
+			if !l.Blocks[h.Preds[i]] {
+				cl.Init = e
+				continue
+			}
+			sl, ok := e.(*ssa.Slice)
+			if !ok || sl.X != ssa.Value(ph) || sl.High != nil || sl.Low == nil {
+				okShape = false
+				continue
+			}
+			lo, ok := sl.Low.(*ssa.Const)
+			if !ok || lo.Int64() != cl.K {
+				okShape = false
+			}
+			cl.Rest = sl
+		}
+		if !okShape || cl.Rest == nil {
+			continue
+		}
+		for b := range l.Blocks {
+			for _, in := range b.Instrs {
+				sl, ok := in.(*ssa.Slice)
+				if !ok || sl.X != ssa.Value(ph) || sl == cl.Rest {
+					continue
+				}
+				hi, okh := sl.High.(*ssa.Const)
+				lowZero := sl.Low == nil
+				if lo, ok := sl.Low.(*ssa.Const); ok && lo.Int64() == 0 {
+					lowZero = true
+				}
+				if okh && hi.Int64() == cl.K && lowZero {
+					cl.Batch = sl
+				}
+			}
+		}
+		if cl.Batch != nil {
+			return cl
+		}
+	}
+	return nil
+}
+
+// attachChunking (C17.R5)
+func (ck *Check) attachChunking(rule string) *chunkLoop {
+	a := ck.A
+	fn := a.AwsAttach
+	if !ck.need(rule, map[string]interface{}{"attach step": fn}) {
+		return nil
+	}
+	cl := findChunkLoop(fn)
+	if cl == nil {
+		ck.fail(rule, funcID(fn)+"/chunk-loop", ck.P.position(fn.Pos()), funcID(fn), "the attach calls form a head/tail chunking loop: for k < len(s) { s, b = s[k:], s[0:k] … }", "not recognised", "ids can be attached twice or not at all")
+		return nil
+	}
+	ck.cond(cl.K <= 20 && cl.K >= 1, rule, funcID(fn)+"/chunk-size", ck.P.instrPos(cl.S), funcID(fn), "chunk size k ≤ 20 (AttachInstances limit); loop continues while k < len(s), advances by exactly k, batch = first k", fmt.Sprintf("k=%d", cl.K), "a batch can exceed the API limit")
+	// init is the instances parameter
+	_, isParam := cl.Init.(*ssa.Parameter)
+	ck.cond(isParam, rule, funcID(fn)+"/chunk-input", ck.P.instrPos(cl.S), funcID(fn), "the chunked slice is the instance list parameter", cl.Init.String(), "")
+	ctx := ck.P.NewCtx(fn)
+	inLoop, after := 0, 0
+	for _, w := range a.W {
+		if w.Class != "W-ASG-ATT" {
+			continue
+		}
+		key := ck.P.siteKey(w.Call)
+		if w.Fn != fn {
+			ck.fail(rule, key, ck.P.instrPos(w.Call), funcID(w.Fn), "AttachInstances is issued only by the attach step", funcID(w.Fn), "")
+			continue
+		}
+		flds := ck.literalFields(ctx, w.Call.Common().Args[0])
+		ids := flds["InstanceIds"]
+		nm := flds["AutoScalingGroupName"]
+		okNM := isAwsHelper(nm, "String") && nm.Args[0].Kind == "field" && nm.Args[0].Name == "id"
+		ck.cond(okNM, rule, key+"/group", ck.P.instrPos(w.Call), funcID(fn), "AutoScalingGroupName ← String(n.id)", fmt.Sprint(nm), "")
+		if cl.loop.Blocks[w.Call.Block()] {
+			inLoop++
+			ck.cond(ids != nil && ids.Val == ssa.Value(cl.Batch), rule, key+"/ids", ck.P.instrPos(w.Call), funcID(fn), "inside the loop the call attaches the current batch s[0:k]", fmt.Sprint(ids), "the whole remaining list (or a wrong slice) is attached inside the loop")
+		} else {
+			after++
+			exitPC := And(ctx.BlockPC(cl.loop.Header), Not(ctx.Formula(cl.loop.Header.Instrs[len(cl.loop.Header.Instrs)-1].(*ssa.If).Cond)))
+			uncond, _, _ := Equivalent(ctx.PC(w.Call), exitPC)
+			okv := ids != nil && ids.Val == ssa.Value(cl.S) && cl.loop.Header.Dominates(w.Call.Block()) && uncond
+			ck.cond(okv, rule, key+"/ids", ck.P.instrPos(w.Call), funcID(fn), "after the loop the remainder s (len ≤ k) is attached", fmt.Sprint(ids), "the remainder is dropped or something else is attached")
+		}
+	}
+	ck.cond(inLoop == 1 && after == 1, rule, funcID(fn)+"/attach-calls", "", funcID(fn), "one attach call per loop iteration plus one for the remainder", fmt.Sprintf("%d in loop, %d after", inLoop, after), "")
+	return cl
+}
+
+// ---------------------------------------------------------------------------------------------
+// C18
+
+func checkC18(ck *Check) {
+	a := ck.A
+	fn := a.AwsAttach
+	if !ck.need("C18.R1", map[string]interface{}{"attach step": fn, "orphan terminator": a.AwsTerminateOrphans, "fleet strategy": a.AwsOneShot}) {
+		return
+	}
+	cl := findChunkLoop(fn)
+	if cl == nil {
+		ck.fail("C18.R1", funcID(fn)+"/chunk-loop", ck.P.position(fn.Pos()), funcID(fn), "the attach calls form a chunking loop (needed to name the not-yet-attached ids)", "not recognised", "")
+		return
+	}
+	ctx := ck.P.NewCtx(fn)
+	var termParam *ssa.Parameter
+	for _, prm := range fn.Params {
+		if _, ok := prm.Type().Underlying().(*types.Signature); ok {
+			termParam = prm
+		}
+	}
+	if termParam == nil {
+		ck.fail("C18.R1", funcID(fn)+"/terminate-param", "", funcID(fn), "the attach step takes the terminate function as a parameter", "none", "")
+		return
+	}
+	isTermCall := func(in ssa.Instruction) *ssa.Call {
+		c, ok := in.(*ssa.Call)
+		if ok && c.Common().Value == ssa.Value(termParam) {
+			return c
+		}
+		return nil
+	}
+	nerr, nok := 0, 0
+	for _, b := range fn.Blocks {
+		r, ok := b.Instrs[len(b.Instrs)-1].(*ssa.Return)
+		if !ok || b == fn.Recover {
+			continue
+		}
+		rt := ctx.Term(r.Results[0])
+		isNil := rt.Kind == "const" && rt.Name == "nil"
+		// terminate call in this block (the error exits call it right before returning)
+		var tc *ssa.Call
+		for _, in := range b.Instrs {
+			if c := isTermCall(in); c != nil {
+				tc = c
+			}
+		}
+		key := fmt.Sprintf("%s/return@block%d", funcID(fn), b.Index)
+		if isNil {
+			nok++
+			// R2: no terminate on any path to the success return
+			clean := true
+			for _, ob := range fn.Blocks {
+				for _, in := range ob.Instrs {
+					if c := isTermCall(in); c != nil {
+						if ob == b || reachesWithout(c, r, func(ssa.Instruction) bool { return false }) {
+							clean = false
+						}
+					}
+				}
+			}
+			ck.cond(clean && tc == nil, "C18.R2", key, ck.P.instrPos(r), funcID(fn), "the success exit calls no terminate (attached ⊕ terminated)", "", "instances are both attached and terminated")
+			continue
+		}
+		nerr++
+		if tc == nil {
+			ck.fail("C18.R1", key, ck.P.instrPos(r), funcID(fn), "every error exit of the attach step first calls terminate", "no terminate call before this return", "acquired instances are neither attached nor terminated when this step fails")
+			continue
+		}
+		arg := tc.Common().Args[1]
+		at := ctx.Term(arg)
+		// which attach call failed on this path?
+		var failed *ssa.Call
+		for _, w := range a.W {
+			if w.Class == "W-ASG-ATT" && w.Fn == fn {
+				c := w.Call.(*ssa.Call)
+				if c.Block().Dominates(b) && c.Block() != b {
+					if failed == nil || failed.Block().Dominates(c.Block()) {
+						failed = c
+					}
+				}
+			}
+		}
+		var okv bool
+		var want string
+		switch {
+		case failed == nil:
+			want = "the whole input (nothing attached yet)"
+			okv = arg == cl.Init
+		case cl.loop.Blocks[failed.Block()]:
+			want = "rest ∪ failed batch = append(s[k:], s[0:k]...) (or s itself)"
+			if ap, isAp := isBuiltinCall(arg, "append"); isAp {
+				x, y := ap.Common().Args[0], ap.Common().Args[1]
+				okv = (x == ssa.Value(cl.Rest) && y == ssa.Value(cl.Batch)) || (x == ssa.Value(cl.Batch) && y == ssa.Value(cl.Rest))
+			} else {
+				okv = arg == ssa.Value(cl.S)
+			}
+		default:
+			want = "the remainder s"
+			okv = arg == ssa.Value(cl.S)
+		}
+		ck.cond(okv, "C18.R1", key+"/terminated-set", ck.P.instrPos(tc), funcID(fn), "the terminated ids are exactly the ones not attached: "+want, at.String(), "some acquired instances are neither attached nor submitted for termination (or attached ones are terminated)")
+		// the returned error is the failing call's error / a fresh error
+		ck.cond(!isNil, "C18.R5", key+"/reported", ck.P.instrPos(r), funcID(fn), "the failure is returned to the caller", rt.String(), "")
+	}
+	ck.floor("C18.R1", "error exits of the attach step", nerr, 3)
+	ck.floor("C18.R2", "success exits of the attach step", nok, 1)
+
+	// R3 nothing dropped between CreateFleet and attach
+	{
+		os := a.AwsOneShot
+		octx := ck.P.NewCtx(os)
+		var fleet *ssa.Call
+		for _, w := range a.W {
+			if w.Class == "W-EC2-FLEET" && w.Fn == os {
+				fleet = w.Call.(*ssa.Call)
+			}
+		}
+		att := callsTo(os, fn)
+		if fleet == nil || len(att) != 1 {
+			ck.fail("C18.R3", funcID(os)+"/shape", "", funcID(os), "one CreateFleet and one attach call", "", "")
+		} else {
+			ft := octx.Term(fleet)
+			fleetOut := &Term{Kind: "extract", Name: "0", Args: []*Term{ft}}
+			for _, b := range os.Blocks {
+				r, ok := b.Instrs[len(b.Instrs)-1].(*ssa.Return)
+				if !ok || !fleet.Block().Dominates(b) || b == fleet.Block() && false {
+					continue
+				}
+				if b == att[0].Block() {
+					continue
+				}
+				pc := octx.BlockPC(b)
+				// allowed: CreateFleet failed, or no instances were returned
+				var errAtom, emptyAtom *Formula
+				for _, at := range pc.Atoms() {
+					if at.Kind == "cmp" && at.Name == "==" {
+						if hasConstStr(at, "nil") {
+							for _, x := range at.Args {
+								if isExtractOf(x, 1, func(t *Term) bool { return t.Key() == ft.Key() }) {
+									errAtom = Not(Atom(at))
+								}
+							}
+						}
+						if hasConstStr(at, "0") {
+							for _, x := range at.Args {
+								if x.Kind == "len" && x.Args[0].Kind == "field" && x.Args[0].Name == "Instances" && x.Args[0].Args[0].Key() == fleetOut.Key() {
+									emptyAtom = Atom(at)
+								}
+							}
+						}
+					}
+				}
+				allowed := FFalse
+				if errAtom != nil {
+					allowed = Or(allowed, errAtom)
+				}
+				if emptyAtom != nil {
+					allowed = Or(allowed, emptyAtom)
+				}
+				ck.entails("C18.R3", fmt.Sprintf("%s/return@block%d", funcID(os), b.Index), r, pc, allowed, "after CreateFleet the strategy returns without attaching only if the call failed or returned no instances")
+			}
+			// production caller injects terminateOrphanedInstances
+			var inj ssa.Value
+			for _, av := range att[0].Common().Args {
+				if _, ok := av.Type().Underlying().(*types.Signature); ok {
+					inj = av
+				}
+			}
+			ck.cond(inj == ssa.Value(a.AwsTerminateOrphans), "C18.R3", ck.P.siteKey(att[0])+"/terminate", ck.P.instrPos(att[0]), funcID(os), "the injected terminate function is terminateOrphanedInstances", fmt.Sprint(inj), "")
+			// the attach result is returned unchanged (R5)
+			ck.returnsCallUnchanged("C18.R5", os, att[0].(*ssa.Call), 0)
+		}
+	}
+	ck.terminateChunking("C18.R4")
+	// R5 chain upwards
+	for _, ci := range callsTo(a.AwsIncrease, a.AwsOneShot) {
+		ck.returnsCallUnchanged("C18.R5", a.AwsIncrease, ci.(*ssa.Call), 0)
+	}
+	{
+		cs := a.CloudStep
+		cctx := ck.P.NewCtx(cs)
+		for _, s := range a.A {
+			if s.Class != "A-CLOUD-INC" || s.Fn != cs {
+				continue
+			}
+			call := s.Call.(*ssa.Call)
+			ct := cctx.Term(call)
+			var errNil *Formula
+			for _, b := range cs.Blocks {
+				for _, at := range cctx.BlockPC(b).Atoms() {
+					if at.Kind == "cmp" && at.Name == "==" && hasConstStr(at, "nil") {
+						for _, x := range at.Args {
+							if x.Key() == ct.Key() {
+								errNil = Atom(at)
+							}
+						}
+					}
+				}
+			}
+			if errNil == nil {
+				ck.fail("C18.R5", ck.P.siteKey(call)+"/error-tested", ck.P.instrPos(call), funcID(cs), "the cloud step tests IncreaseSize's error", "not tested", "a failed increase is reported as success and the lock is armed")
+				continue
+			}
+			for _, b := range cs.Blocks {
+				r, ok := b.Instrs[len(b.Instrs)-1].(*ssa.Return)
+				if !ok {
+					continue
+				}
+				et := cctx.Term(r.Results[1])
+				if !(et.Kind == "const" && et.Name == "nil") {
+					continue
+				}
+				pre := And(cctx.BlockPC(b), cctx.PC(call))
+				if sat, _ := Satisfiable(pre); !sat {
+					continue
+				}
+				ck.entails("C18.R5", fmt.Sprintf("%s/return@block%d", funcID(cs), b.Index), r, pre, errNil, "the cloud step returns a nil error after calling IncreaseSize only if IncreaseSize returned nil")
+			}
+		}
+	}
+}
+
+// returnsCallUnchanged: result idx of call is returned directly by fn on the path through it.
+func (ck *Check) returnsCallUnchanged(rule string, fn *ssa.Function, call *ssa.Call, idx int) {
+	ctx := ck.P.NewCtx(fn)
+	ct := ctx.Term(call)
+	okv := false
+	for _, b := range fn.Blocks {
+		r, ok := b.Instrs[len(b.Instrs)-1].(*ssa.Return)
+		if !ok || !call.Block().Dominates(b) {
+			continue
+		}
+		rt := ctx.Term(r.Results[len(r.Results)-1])
+		if rt.Key() == ct.Key() || isExtractOf(rt, len(r.Results)-1, func(t *Term) bool { return t.Key() == ct.Key() }) {
+			okv = true
+		}
+	}
+	ck.cond(okv, rule, ck.P.siteKey(call)+"/error-returned", ck.P.instrPos(call), funcID(fn), "the callee's error is returned unchanged", "", "the failure of "+calleeName(call)+" is swallowed")
+}
+
+// terminateChunking (C18.R4)
+func (ck *Check) terminateChunking(rule string) {
+	a := ck.A
+	fn := a.AwsTerminateOrphans
+	ctx := ck.P.NewCtx(fn)
+	var site *Site
+	for i := range a.W {
+		if a.W[i].Class == "W-EC2-TERM" {
+			if a.W[i].Fn != fn {
+				ck.fail(rule, ck.P.siteKey(a.W[i].Call), ck.P.instrPos(a.W[i].Call), funcID(a.W[i].Fn), "TerminateInstances is issued only by the orphan terminator", "", "")
+				continue
+			}
+			site = &a.W[i]
+		}
+	}
+	if site == nil {
+		ck.lost(rule, "TerminateInstances site", "none")
+		return
+	}
+	call := site.Call.(*ssa.Call)
+	key := ck.P.siteKey(call)
+	outer := innermostLoop(fn, call.Block())
+	if outer == nil {
+		ck.fail(rule, key+"/loop", ck.P.instrPos(call), funcID(fn), "TerminateInstances sits in an index-stepping loop over the id list", "no loop", "more than 1000 ids can be sent in one call")
+		return
+	}
+	// induction: i = phi(0, i+k); header: i < N
+	var iv *ssa.Phi
+	var step int64
+	for _, in := range outer.Header.Instrs {
+		ph, ok := in.(*ssa.Phi)
+		if !ok || !isInteger(ph.Type()) {
+			continue
+		}
+		okInit, okStep := false, true
+		for i, e := range ph.Edges {
+			if !outer.Blocks[outer.Header.Preds[i]] {
+				if k, ok := e.(*ssa.Const); ok && k.Int64() == 0 {
+					okInit = true
+				}
+				continue
+			}
+			bo, ok := e.(*ssa.BinOp)
+			if !ok || bo.Op != token.ADD || bo.X != ssa.Value(ph) {
+				okStep = false
+				continue
+			}
+			k, ok := bo.Y.(*ssa.Const)
+			if !ok {
+				okStep = false
+				continue
+			}
+			step = k.Int64()
+		}
+		if okInit && okStep && step > 0 {
+			iv = ph
+		}
+	}
+	if iv == nil {
+		ck.fail(rule, key+"/induction", ck.P.instrPos(call), funcID(fn), "loop variable i = 0, k, 2k, … with constant k", "not recognised", "")
+		return
+	}
+	ck.cond(step <= 1000, rule, key+"/chunk-size", ck.P.instrPos(iv), funcID(fn), "step k ≤ 1000 (TerminateInstances limit)", fmt.Sprint(step), "")
+	// batch = instances[i : min(i+k, N)]
+	var batch *ssa.Slice
+	for b := range outer.Blocks {
+		for _, in := range b.Instrs {
+			if sl, ok := in.(*ssa.Slice); ok && sl.Low == ssa.Value(iv) {
+				if _, isParam := sl.X.(*ssa.Parameter); isParam {
+					batch = sl
+				}
+			}
+		}
+	}
+	okBatch := false
+	if batch != nil && batch.High != nil {
+		ht := ctx.Term(batch.High)
+		// min(i+k, N) through a repo helper or the builtin
+		if ht.Kind == "call" && len(ht.Args) == 2 {
+			sum := &Term{Kind: "binop", Name: "+", Args: []*Term{ctx.Term(iv), intConstTerm(step)}}
+			env := &linEnv{choices: map[string]int{}, root: ctx}
+			for i := 0; i < 2; i++ {
+				l1, e1 := env.linTerm(ht.Args[i])
+				l2, e2 := env.linTerm(sum)
+				if e1 == nil && e2 == nil {
+					d := l1.add(l2, -1)
+					if d.isConst() && d.konst.Sign() == 0 {
+						other := ht.Args[1-i]
+						if other.Kind == "len" || other.Kind == "param" || other.Kind == "phi" || other.Kind == "call" {
+							// the helper must be a minimum
+							if ht.Name == "min" || ck.isMinHelper(ht.Fn) {
+								okBatch = true
+							}
+						}
+					}
+				}
+			}
+		}
+	}
+	ck.cond(okBatch, rule, key+"/batch", ck.P.instrPos(call), funcID(fn), "batch = ids[i : min(i+k, len(ids))]", fmt.Sprint(batch), "the batch bounds do not partition the id list")
+	// the ids sent: StringSlice(acc) with acc collected from the current batch only
+	flds := ck.literalFields(ctx, call.Common().Args[0])
+	ids := flds["InstanceIds"]
+	okIDs := false
+	why := "InstanceIds is not StringSlice(<ids collected from the current batch>)"
+	if isAwsHelper(ids, "StringSlice") {
+		accV := ids.Args[0].Val
+		if ph, ok := accV.(*ssa.Phi); ok {
+			acc := accumulatorOf(ph)
+			if acc != nil && acc.Loop != outer && outer.Blocks[acc.Loop.Header] && len(acc.Other) == 0 {
+				// inner loop ranges over the batch, full traversal, one append per element
+				full := acc.Loop.FullTraversal() && acc.Loop.Over == ssa.Value(batch) && len(acc.Appends) == 1 && len(acc.Appends[0].Elems) == 1
+				// F3: the accumulator must start empty in every outer iteration
+				fresh := false
+				switch x := acc.Init.(type) {
+				case *ssa.Const:
+					fresh = x.Value == nil
+				case *ssa.MakeSlice:
+					fresh = makeSliceEmpty(x) && outer.Blocks[x.Block()]
+				}
+				switch {
+				case !full:
+					why = "the ids are not collected by a full range over the current batch"
+				case !fresh:
+					why = "the id accumulator is carried across batches (call j would carry batches 1..j)"
+				default:
+					okIDs = true
+				}
+			}
+		}
+	}
+	ck.cond(okIDs, rule, key+"/ids", ck.P.instrPos(call), funcID(fn), "each TerminateInstances call carries exactly the ids of the current batch (≤ k)", fmt.Sprint(ids), why)
+}
+
+func (ck *Check) isMinHelper(f *ssa.Function) bool {
+	if f == nil || f.Blocks == nil || len(f.Params) != 2 || infoOf(f).hasLoop {
+		return false
+	}
+	ctx := ck.P.NewCtx(f)
+	x, y := paramTerm(f.Params[0]), paramTerm(f.Params[1])
+	for _, b := range f.Blocks {
+		r, ok := b.Instrs[len(b.Instrs)-1].(*ssa.Return)
+		if !ok {
+			continue
+		}
+		rt := ctx.Term(r.Results[0])
+		var other *Term
+		switch rt.Key() {
+		case x.Key():
+			other = y
+		case y.Key():
+			other = x
+		default:
+			return false
+		}
+		// PC ⇒ rt ≤ other
+		okv, _, err := ctx.EntailsLinear(ctx.BlockPC(b), []LinFact{{A: rt, B: other, K: 0}})
+		if err != nil || !okv {
+			return false
+		}
+	}
+	return true
+}
+
+// ---------------------------------------------------------------------------------------------
+// C19
+
+func checkC19(ck *Check) {
+	a := ck.A
+	fn := a.AwsDelete
+	if !ck.need("C19.R1", map[string]interface{}{"aws DeleteNodes": fn, "Belongs": a.AwsBelongs, "Nodes": a.AwsNodes, "delete step": a.TryDelete}) {
+		return
+	}
+	ctx := ck.P.NewCtx(fn)
+	recv := paramTerm(fn.Params[0])
+	nodes := paramTerm(fn.Params[1])
+	var site *Site
+	for i := range a.W {
+		if a.W[i].Class == "W-ASG-TERM" {
+			if a.W[i].Fn != fn {
+				ck.fail("C19.R1", ck.P.siteKey(a.W[i].Call), ck.P.instrPos(a.W[i].Call), funcID(a.W[i].Fn), "TerminateInstanceInAutoScalingGroup is issued only by DeleteNodes", "", "")
+				continue
+			}
+			site = &a.W[i]
+		}
+	}
+	if site == nil {
+		ck.lost("C19.R1", "terminate site", "none in DeleteNodes")
+		return
+	}
+	call := site.Call.(*ssa.Call)
+	key := ck.P.siteKey(call)
+	pc := ctx.PC(call)
+	minT := &Term{Kind: "call", Name: funcID(a.AwsMinSize), Fn: a.AwsMinSize, Obj: a.AwsMinSize.Object(), Args: []*Term{recv}, Typ: types.Typ[types.Int64]}
+	// candidates for TargetSize() evaluated before the loop
+	var tsCands []*Term
+	seen := map[string]bool{}
+	for _, at := range pc.Atoms() {
+		at.walk(func(t *Term) bool {
+			if isCallTo(t, a.AwsTargetSize) && len(t.Args) == 1 && t.Args[0].Key() == recv.Key() && !seen[t.Key()] {
+				if c, ok := t.Val.(*ssa.Call); ok && innermostLoop(fn, c.Block()) == nil {
+					seen[t.Key()] = true
+					tsCands = append(tsCands, t)
+				}
+			}
+			return true
+		})
+	}
+	check := func(text string, mk func(ts *Term) LinFact) {
+		okv := false
+		var lastWhy string
+		for _, ts := range tsCands {
+			o, why, err := ctx.EntailsLinear(pc, []LinFact{mk(ts)})
+			if err == nil && o {
+				okv = true
+			} else if err != nil {
+				lastWhy = err.Error()
+			} else {
+				lastWhy = why
+			}
+		}
+		if len(tsCands) == 0 {
+			lastWhy = "no TargetSize() pre-check evaluated before the loop"
+		}
+		ck.cond(okv, "C19.R1", key+"/"+text, ck.P.instrPos(call), funcID(fn), "PC(terminate) ⇒ "+text+" (TargetSize read before the first termination)", pc.String(), lastWhy)
+	}
+	check("TargetSize > MinSize", func(ts *Term) LinFact {
+		return LinFact{A: &Term{Kind: "binop", Name: "+", Args: []*Term{minT, intConstTerm(1)}}, B: ts, K: 0, Text: "MinSize + 1 ≤ TargetSize"}
+	})
+	check("TargetSize − len(nodes) ≥ MinSize", func(ts *Term) LinFact {
+		return LinFact{A: &Term{Kind: "binop", Name: "+", Args: []*Term{minT, lenOf("len", nodes)}}, B: ts, K: 0, Text: "MinSize + len(nodes) ≤ TargetSize"}
+	})
+	// one terminate per listed node
+	loop := innermostLoop(fn, call.Block())
+	okLoop := loop != nil && loop.IdxPhi != nil && ctx.Term(loop.Over).Key() == nodes.Key()
+	ck.cond(okLoop, "C19.R1", key+"/once-per-node", ck.P.instrPos(call), funcID(fn), "the terminate call sits directly in the range loop over the given nodes (≤ 1 per node)", "", "more terminations than nodes (nested loop) or nodes from another list")
+	if !okLoop {
+		return
+	}
+	node := &Term{Kind: "elem", Args: []*Term{nodes}, ID: "L" + ctx.instrID(loop.IdxPhi)}
+	if sl, ok := fn.Params[1].Type().Underlying().(*types.Slice); ok {
+		node.Typ = sl.Elem()
+	}
+	// R2 membership
+	belongs := Atom(&Term{Kind: "call", Name: funcID(a.AwsBelongs), Fn: a.AwsBelongs, Obj: a.AwsBelongs.Object(), Args: []*Term{recv, node}})
+	ck.entails("C19.R2", key+"/member", call, pc, belongs, "PC(terminate) ⇒ Belongs(node) for the node of this iteration")
+	foundNG := false
+	for b := range loop.Blocks {
+		for _, s := range b.Succs {
+			_ = s
+		}
+	}
+	for _, b := range fn.Blocks {
+		r, ok := b.Instrs[len(b.Instrs)-1].(*ssa.Return)
+		if !ok {
+			continue
+		}
+		if imp, _, _ := Entails(ctx.BlockPC(b), Not(belongs)); imp {
+			if sat, _ := Satisfiable(ctx.BlockPC(b)); !sat {
+				continue
+			}
+			mi, isMI := r.Results[0].(*ssa.MakeInterface)
+			okT := isMI && ck.A.isPtrTo(mi.X.Type(), a.TNotInGroup)
+			if okT {
+				foundNG = true
+			}
+			ck.cond(okT, "C19.R2", fmt.Sprintf("%s/return@block%d/not-in-group", funcID(fn), b.Index), ck.P.instrPos(r), funcID(fn), "a non-member node makes DeleteNodes return *cloudprovider.NodeNotInNodeGroup", r.Results[0].String(), "a foreign node is skipped or reported with a generic error, so escalator continues")
+		}
+	}
+	ck.cond(foundNG, "C19.R2", funcID(fn)+"/not-in-group-exit", "", funcID(fn), "there is a return under ¬Belongs(node)", "", "non-members are not rejected")
+	// R3 right instance, with decrement
+	flds := ck.literalFields(ctx, call.Common().Args[0])
+	dec := flds["ShouldDecrementDesiredCapacity"]
+	ck.cond(isAwsHelper(dec, "Bool") && dec.Args[0].Name == "true", "C19.R3", key+"/decrement", ck.P.instrPos(call), funcID(fn), "ShouldDecrementDesiredCapacity ← Bool(true)", fmt.Sprint(dec), "the ASG replaces the terminated instance")
+	iid := flds["InstanceId"]
+	okID := false
+	whyID := "InstanceId is not the id of the ASG instance matched by provider id"
+	if iid != nil {
+		if ph, ok := iid.Val.(*ssa.Phi); ok {
+			okID = true
+			b := ph.Block()
+			nonNil := 0
+			for i, e := range ph.Edges {
+				et := ctx.Term(e)
+				if et.Kind == "const" && et.Name == "nil" {
+					continue
+				}
+				nonNil++
+				// edge value: elem(n.asg.Instances).InstanceId under ProviderID == instanceToProviderID(elem)
+				okE := et.Kind == "field" && et.Name == "InstanceId" && et.Args[0].Kind == "elem"
+				var inst *Term
+				if okE {
+					inst = et.Args[0]
+					over := inst.Args[0]
+					okE = over.Kind == "field" && over.Name == "Instances"
+				}
+				if okE {
+					match := cmpFormula(token.EQL, ck.nodeField(node, "Spec", "ProviderID"), &Term{Kind: "call", Name: funcID(a.AwsInstToProv), Fn: a.AwsInstToProv, Obj: a.AwsInstToProv.Object(), Args: []*Term{inst}})
+					imp, _, _ := Entails(ctx.edgePC(b.Preds[i], b), match)
+					okE = imp
+				}
+				if !okE {
+					okID = false
+					whyID = "an InstanceId candidate is not guarded by node.Spec.ProviderID == instanceToProviderID(instance): " + et.String()
+				}
+			}
+			if nonNil == 0 {
+				okID = false
+			}
+		}
+	}
+	ck.cond(okID, "C19.R3", key+"/instance", ck.P.instrPos(call), funcID(fn), "InstanceId ← the ASG instance whose provider id equals the node's", fmt.Sprint(iid), whyID)
+	// R4 Belongs / Nodes use the same mapping
+	ck.belongsShape("C19.R4")
+	// R5 cloud first, k8s only on success
+	{
+		td := a.TryDelete
+		tctx := ck.P.NewCtx(td)
+		var cloud *ssa.Call
+		var k8sDels []*ssa.Call
+		for _, s := range a.A {
+			if s.Fn == td && s.Class == "A-CLOUD-DEL" {
+				cloud = s.Call.(*ssa.Call)
+			}
+			if s.Fn == td && s.Class == "A-K8S-DEL" {
+				k8sDels = append(k8sDels, s.Call.(*ssa.Call))
+			}
+		}
+		if cloud == nil || len(k8sDels) == 0 {
+			ck.fail("C19.R5", funcID(td)+"/sinks", "", funcID(td), "the delete step calls the cloud delete and the Kubernetes delete", "", "")
+		}
+		for _, k8sDel := range k8sDels {
+			if cloud == nil {
+				break
+			}
+			ct := tctx.Term(cloud)
+			var errNil *Formula
+			for _, at := range tctx.PC(k8sDel).Atoms() {
+				if at.Kind == "cmp" && at.Name == "==" && hasConstStr(at, "nil") {
+					for _, x := range at.Args {
+						if x.Key() == ct.Key() {
+							errNil = Atom(at)
+						}
+					}
+				}
+			}
+			if errNil == nil {
+				ck.fail("C19.R5", ck.P.siteKey(k8sDel)+"/after-cloud", ck.P.instrPos(k8sDel), funcID(td), "PC(Kubernetes delete) ⇒ the cloud delete returned nil", tctx.PC(k8sDel).String(), "Node objects are deleted although the cloud did not accept the termination")
+			} else {
+				ck.entails("C19.R5", ck.P.siteKey(k8sDel)+"/after-cloud", k8sDel, tctx.PC(k8sDel), And(tctx.PC(cloud), errNil), "PC(Kubernetes delete) ⇒ the cloud delete ran and returned nil")
+			}
+			ck.cond(dominatesInstr(cloud, k8sDel), "C19.R5", ck.P.siteKey(k8sDel)+"/order", ck.P.instrPos(k8sDel), funcID(td), "the cloud delete precedes the Kubernetes delete", "", "")
+		}
+	}
+	// R6 propagation
+	ck.notInGroupPropagation("C19.R6")
+}
+
+// belongsShape: Belongs(node) ⇔ ∃ id ∈ Nodes(): id == node.Spec.ProviderID; Nodes() maps
+// instanceToProviderID over asg.Instances.
+func (ck *Check) belongsShape(rule string) {
+	a := ck.A
+	{
+		fn := a.AwsBelongs
+		ctx := ck.P.NewCtx(fn)
+		recv, node := paramTerm(fn.Params[0]), paramTerm(fn.Params[1])
+		okv := true
+		var why []string
+		trueRets := 0
+		for _, b := range fn.Blocks {
+			r, ok := b.Instrs[len(b.Instrs)-1].(*ssa.Return)
+			if !ok {
+				continue
+			}
+			k, isC := r.Results[0].(*ssa.Const)
+			if !isC {
+				okv = false
+				why = append(why, "non-constant result")
+				continue
+			}
+			if k.Value.String() != "true" {
+				continue
+			}
+			trueRets++
+			pc := ctx.BlockPC(b)
+			found := false
+			for _, at := range pc.Atoms() {
+				if at.Kind == "cmp" && at.Name == "==" {
+					var el, pid *Term
+					for _, x := range at.Args {
+						if x.Kind == "elem" {
+							el = x
+						}
+						if x.Key() == ck.nodeField(node, "Spec", "ProviderID").Key() {
+							pid = x
+						}
+					}
+					if el != nil && pid != nil && isCallTo(el.Args[0], a.AwsNodes) && el.Args[0].Args[0].Key() == recv.Key() {
+						if imp, _, _ := Entails(pc, Atom(at)); imp {
+							found = true
+						}
+					}
+				}
+			}
+			if !found {
+				okv = false
+				why = append(why, "true is returned without matching an element of Nodes() against node.Spec.ProviderID")
+			}
+		}
+		if trueRets == 0 {
+			okv = false
+			why = append(why, "never returns true")
+		}
+		ck.cond(okv, rule, "Belongs/body", ck.P.position(fn.Pos()), funcID(fn), "Belongs(node) ⇔ ∃ id ∈ Nodes(): id == node.Spec.ProviderID", "", strings.Join(why, "; "))
+	}
+	{
+		fn := a.AwsNodes
+		ctx := ck.P.NewCtx(fn)
+		okv := false
+		why := "Nodes() is not a full-range collect of instanceToProviderID over asg.Instances"
+		for _, b := range fn.Blocks {
+			r, ok := b.Instrs[len(b.Instrs)-1].(*ssa.Return)
+			if !ok {
+				continue
+			}
+			pr := sliceProv(r.Results[0])
+			if len(pr.Appends) == 1 && len(pr.Appends[0].Elems) == 1 {
+				ap := pr.Appends[0]
+				l := innermostLoop(fn, ap.Call.Block())
+				et := ctx.Term(ap.Elems[0])
+				if l != nil && l.FullTraversal() && isCallTo(et, a.AwsInstToProv) && et.Args[0].Kind == "elem" {
+					over := et.Args[0].Args[0]
+					body := And(ctx.BlockPC(l.Header), ctx.edgeCond(l.Header, l.Header.Succs[0]))
+					eq, _, _ := Equivalent(ctx.PC(ap.Call), body)
+					if over.Kind == "field" && over.Name == "Instances" && eq {
+						okv = true
+					}
+				}
+			}
+		}
+		ck.cond(okv, rule, "Nodes/body", ck.P.position(fn.Pos()), funcID(fn), "Nodes() = [instanceToProviderID(i) for every i in asg.Instances] — the mapping the instance lookup compares with", "", why)
+	}
+}
+
+// notInGroupPropagation (C19.R6)
+func (ck *Check) notInGroupPropagation(rule string) {
+	a := ck.A
+	canReturnNG := ck.P.reachCut(nil, nil)
+	// functions that can (transitively) reach aws DeleteNodes
+	for _, fn := range ck.P.Funcs {
+		if ck.P.reachCut([]*ssa.Function{fn}, nil)[a.AwsDelete] {
+			canReturnNG[fn] = true
+		}
+	}
+	frames := []*ssa.Function{a.TryDelete, a.GraceReaper, a.ForceReaper, a.ScaleDown, a.Scan, a.RunOnce, a.RunForever}
+	total := 0
+	for _, fr := range frames {
+		if fr == nil {
+			continue
+		}
+		ctx := ck.P.NewCtx(fr)
+		errIdx := fr.Signature.Results().Len() - 1
+		for _, ci := range callsIn(fr, nil) {
+			call, ok := ci.(*ssa.Call)
+			if !ok {
+				continue
+			}
+			reaches := false
+			for _, g := range ck.P.calleesOf(ci) {
+				if canReturnNG[g] || g == a.AwsDelete {
+					reaches = true
+				}
+			}
+			if !reaches {
+				continue
+			}
+			// the error value of the call
+			var e ssa.Value
+			if tup, ok := call.Type().(*types.Tuple); ok {
+				for _, r := range *call.Referrers() {
+					if ex, ok := r.(*ssa.Extract); ok && ex.Index == tup.Len()-1 {
+						e = ex
+					}
+				}
+			} else {
+				e = call
+			}
+			total++
+			key := ck.P.siteKey(ci) + "/not-in-group"
+			if e == nil {
+				ck.fail(rule, key, ck.P.instrPos(ci), funcID(fr), "the error of a call that can yield *NodeNotInNodeGroup is examined", "error result dropped", "a not-in-group error is ignored and escalator continues")
+				continue
+			}
+			ck.propagates(rule, key, fr, ctx, call, e, errIdx)
+		}
+	}
+	ck.floor(rule, "calls that can yield *NodeNotInNodeGroup across the frames up to RunForever", total, 9)
+	// main passes RunForever's result to log.Fatal
+	if sp := ck.P.SSAPkg[pkgCmd]; sp != nil {
+		mainFn := sp.Func("main")
+		okv := false
+		for _, ci := range callsTo(mainFn, a.RunForever) {
+			c := ci.(*ssa.Call)
+			for _, r := range *c.Referrers() {
+				// value → MakeInterface → varargs store → slice → logrus.Fatal
+				seen := map[ssa.Value]bool{}
+				var follow func(v ssa.Value) bool
+				follow = func(v ssa.Value) bool {
+					if seen[v] {
+						return false
+					}
+					seen[v] = true
+					for _, rr := range *v.Referrers() {
+						switch x := rr.(type) {
+						case *ssa.MakeInterface:
+							if follow(x) {
+								return true
+							}
+						case *ssa.ChangeInterface:
+							if follow(x) {
+								return true
+							}
+						case *ssa.Store:
+							if ia, ok := x.Addr.(*ssa.IndexAddr); ok {
+								if al, ok := ia.X.(*ssa.Alloc); ok {
+									for _, r3 := range *al.Referrers() {
+										if sl, ok := r3.(*ssa.Slice); ok && follow(sl) {
+											return true
+										}
+									}
+								}
+							}
+						case *ssa.Call:
+							if f := x.Common().StaticCallee(); f != nil && strings.HasPrefix(f.Name(), "Fatal") && strings.Contains(pkgPathOfFn(f), "logrus") {
+								return true
+							}
+						}
+					}
+					return false
+				}
+				_ = r
+				if follow(c) {
+					okv = true
+				}
+			}
+		}
+		ck.cond(okv, rule, "main/fatal", "", "cmd.main", "main passes RunForever's error to log.Fatal (the controller exits)", "", "a not-in-group error does not stop the process")
+	}
+}
+
+// propagates: in frame fr, on every path after call where its error e is non-nil and passes the
+// *NodeNotInNodeGroup type tests, the frame returns e itself and does not continue looping.
+func (ck *Check) propagates(rule, key string, fr *ssa.Function, ctx *Ctx, call *ssa.Call, e ssa.Value, errIdx int) {
+	a := ck.A
+	// carriers: e and φs fed by e
+	carriers := []ssa.Value{e}
+	onlyPhi := true
+	for _, r := range *e.Referrers() {
+		switch x := r.(type) {
+		case *ssa.Phi:
+			carriers = append(carriers, x)
+		case *ssa.DebugRef:
+		default:
+			onlyPhi = false
+		}
+	}
+	if onlyPhi && len(carriers) > 1 {
+		carriers = carriers[1:]
+	}
+	fi := infoOf(fr)
+	okAll := true
+	var why []string
+	for _, cv := range carriers {
+		ct := ctx.Term(cv)
+		var nilAtom *Formula
+		typeOK := FTrue
+		for _, b := range fr.Blocks {
+			for _, at := range ctx.BlockPC(b).Atoms() {
+				if at.Kind == "cmp" && at.Name == "==" && hasConstStr(at, "nil") {
+					for _, x := range at.Args {
+						if x.Key() == ct.Key() {
+							nilAtom = Atom(at)
+						}
+					}
+				}
+				if at.Kind == "extract" && at.Name == "1" && at.Args[0].Kind == "typeassert" && at.Args[0].Args[0].Key() == ct.Key() && strings.HasSuffix(at.Args[0].Name, "NodeNotInNodeGroup") {
+					typeOK = And(typeOK, Atom(at))
+				}
+			}
+		}
+		NG := typeOK
+		if nilAtom != nil {
+			NG = And(Not(nilAtom), typeOK)
+		}
+		// without a nil test the error must simply be passed through by every return after the call
+		var from *ssa.BasicBlock = call.Block()
+		if ph, ok := cv.(*ssa.Phi); ok {
+			from = ph.Block()
+			// restrict to the edge carrying e
+			for i, ed := range ph.Edges {
+				if ed == e {
+					NG = And(NG, ctx.edgePC(from.Preds[i], from))
+				}
+			}
+		} else {
+			NG = And(NG, ctx.PC(call))
+		}
+		for _, b := range fr.Blocks {
+			if !from.Dominates(b) {
+				continue
+			}
+			cond := And(ctx.BlockPC(b), NG)
+			sat, err := Satisfiable(cond)
+			if err != nil || !sat {
+				continue
+			}
+			switch last := b.Instrs[len(b.Instrs)-1].(type) {
+			case *ssa.Return:
+				rt := ctx.Term(last.Results[errIdx])
+				if rt.Key() != ct.Key() && rt.Key() != ctx.Term(e).Key() {
+					okAll = false
+					why = append(why, fmt.Sprintf("return at %s yields %s instead of the not-in-group error", ck.P.instrPos(last), rt))
+				}
+			default:
+				for _, s := range b.Succs {
+					// only loops that contain the call can bring the frame back to it
+					inCallLoop := false
+					for _, l := range loopsOf(fr) {
+						if l.Header == s && l.Blocks[call.Block()] {
+							inCallLoop = true
+						}
+					}
+					if fi.backEdge[[2]int{b.Index, s.Index}] && inCallLoop {
+						if sat2, _ := Satisfiable(And(cond, ctx.edgeCond(b, s))); sat2 {
+							okAll = false
+							why = append(why, "the frame goes on to its next loop iteration with a not-in-group error pending")
+						}
+					}
+				}
+			}
+		}
+		// and some return must exist under NG
+		reached := false
+		for _, b := range fr.Blocks {
+			if _, ok := b.Instrs[len(b.Instrs)-1].(*ssa.Return); ok && from.Dominates(b) {
+				if sat, _ := Satisfiable(And(ctx.BlockPC(b), NG)); sat {
+					reached = true
+				}
+			}
+		}
+		if !reached {
+			okAll = false
+			why = append(why, "no return is reachable with the not-in-group error")
+		}
+	}
+	_ = a
+	ck.cond(okAll, rule, key, ck.P.instrPos(call), funcID(fr), "whenever this call yields a non-nil error of type *NodeNotInNodeGroup the frame returns that error unchanged", "", strings.Join(why, "; "))
+}
